@@ -1,6 +1,7 @@
 package checks
 
 import (
+	"bytes"
 	"fmt"
 	"os"
 	"path/filepath"
@@ -131,7 +132,7 @@ func c20Directed(full bool) []c20Case {
 		}
 	}
 	for _, dry := range []string{"", "true", "false"} {
-		for _, dirty := range []string{"", "untracked", "modified", "staged-new", "staged-modified", "deleted"} {
+		for _, dirty := range []string{"", "untracked", "modified", "staged-new", "staged-modified", "deleted", "crlf-only", "mode-only"} {
 			for _, req := range []string{"v3.3.0", "v3.2.0", "v3.1.0", "banana"} {
 				ops := []c20Op{{Kind: "commit"}, {Kind: "commit"}, {Kind: "tag", Arg: "v3.2.0", Back: 1}, {Kind: "version", Arg: req}}
 				if dirty != "" {
@@ -157,7 +158,7 @@ func c20Gen(r *core.Rng) c20Case {
 		case k < 4:
 			cs.Ops = append(cs.Ops, c20Op{Kind: "commit"})
 		case k < 6:
-			cs.Ops = append(cs.Ops, c20Op{Kind: "dirty", Arg: core.Pick(r, []string{"untracked", "modified", "staged-new", "staged-modified", "deleted", "staged-deleted"})})
+			cs.Ops = append(cs.Ops, c20Op{Kind: "dirty", Arg: core.Pick(r, []string{"untracked", "modified", "staged-new", "staged-modified", "deleted", "staged-deleted", "crlf-only", "mode-only"})})
 		case k < 8:
 			cs.Ops = append(cs.Ops, c20Op{Kind: "clean"})
 		case k == 12 && r.Chance(1, 2):
@@ -333,6 +334,14 @@ func evalC20(c *core.Ctx, cs c20Case, id string) Outcome {
 				g.git("add", "other.txt")
 			case "deleted":
 				os.Remove(filepath.Join(repo, "other.txt"))
+			case "crlf-only":
+				// the same text with other line endings: no conversion is configured, so git (and
+				// the statement) call this tree dirty
+				if b, err := os.ReadFile(filepath.Join(repo, "other.txt")); err == nil && !bytes.Contains(b, []byte("\r\n")) {
+					os.WriteFile(filepath.Join(repo, "other.txt"), bytes.ReplaceAll(b, []byte("\n"), []byte("\r\n")), 0o644)
+				}
+			case "mode-only":
+				os.Chmod(filepath.Join(repo, "other.txt"), 0o755)
 			case "staged-deleted":
 				if _, err := os.Stat(filepath.Join(repo, "other.txt")); err == nil {
 					g.git("rm", "-q", "-f", "--cached", "--ignore-unmatch", "other.txt")
